@@ -9,7 +9,7 @@ import (
 var commonAssumptions = []string{
 	"refpeg (the reference interpreter) implements PEG semantics and pigeon's documented conventions (positions, value shapes, error prefixes) correctly; it shares no code with pigeon; contracts pinned by probes are listed in DESIGN.md section 7",
 	"cases touching an open known finding are excluded or tolerated field-wise and counted (excluded_known); the finding's witness is re-run with the tolerance off on every check",
-	"bounded search: grammars <= ~60 nodes (one in ten with big entry rules of 66-258 alternatives or items, literals up to 4200 bytes, classes of 70-300 members, chains of 70-300 rules), inputs <= 48 bytes (big rules: up to 9000 bytes; one case in 150: 300-9000 bytes through the Loop entry, 600 for grammars with state); options given in drawn order; it never establishes absence",
+	"bounded search: grammars <= ~60 nodes (one in ten with big entry rules of 66-258 alternatives or items, literals up to 4200 bytes, classes of 70-300 members, chains of 66-130 rules), inputs <= 48 bytes (big rules: up to 9000 bytes; one case in 150: 300-9000 bytes through the Loop entry, 600 for grammars with state); options given in drawn order; it never establishes absence",
 }
 
 // withLR mixes left-recursive grammars (every nth) into a profile-driven check.
